@@ -45,6 +45,11 @@ def plan(tier, seed):
     for solver, info in K.SOLVER_INFO.items():
         for df in info["datafits"]:
             pens = [p for p in info["penalties"]]
+            if tier == "quick" and len(pens) > 4:
+                # quick: a seeded sample of 4 penalties per (solver, datafit); thorough runs them all
+                from vlib.common import rng_for
+                r = rng_for("C20-plan", seed, solver, str(df))
+                pens = [pens[i] for i in sorted(r.choice(len(pens), 4, replace=False))]
             size = 4 if solver in ("AndersonCD", "ProxNewton", "FISTA") else 8
             for i in range(0, len(pens), size):
                 for mode in ("plain", "plain_alt", "checked"):
